@@ -1,2 +1,84 @@
-(** C18 — statements only; see Proofs/. *)
-From RRSS Require Import Base.Outcome.
+(** C18 — Constant-assignment lint is exact and its suggested rewrite is equivalent.
+    Statements only; proofs in Proofs/SuggestLaws.v (and C17's for what "folds to a constant" means). *)
+From Coq Require Import List ZArith NArith Bool.
+From RRSS Require Import Base.Outcome Base.Chars Base.F64 Base.F64Text Exec.Val Exec.Ops Front.Ast Analysis.Fold Lint.Lint Proofs.SuggestLaws.
+Import ListNotations.
+Open Scope N_scope.
+
+(** reported exactly when the right-hand side is an ordinary expression that folds to a single
+    numeric constant (or is a plain string literal), naming target, value and the line of the value *)
+Theorem C18_boring_assignment_iff :
+  forall d f rest,
+  boring_stmt (SAssign d f rest None) =
+  match fold_num_list f rest with
+  | Ok x => numeric_diag [] (lit " is ") (render_lhs d) x (range_line (exprlist_range f rest))
+  | Err FWrongType =>
+      match fold_str_list f rest with
+      | Ok s => Ok (string_diag (render_lhs d) s (range_line (exprlist_range f rest)))
+      | _ => Ok []
+      end
+  | _ => Ok []
+  end.
+Proof. exact boring_assignment_iff. Qed.
+
+Theorem C18_boring_poetic_expr_iff :
+  forall d e,
+  boring_stmt (SPoeticNum d (PNExpr e)) =
+  match fold_num e with
+  | Ok x => numeric_diag [] (lit " is ") (render_lhs d) x (range_line (expr_range e))
+  | Err FWrongType =>
+      match fold_str e with
+      | Ok s => Ok (string_diag (render_lhs d) s (range_line (expr_range e)))
+      | _ => Ok []
+      end
+  | _ => Ok []
+  end.
+Proof. exact boring_poetic_expr_iff. Qed.
+
+Theorem C18_boring_push_iff :
+  forall a f rest,
+  boring_stmt (SPush a (Some (PushList f rest))) =
+  match fold_num_list f rest with
+  | Ok x => numeric_diag (lit "Rock ") (lit " like ") (render_primary a) x (range_line (primary_range a))
+  | _ => Ok []
+  end.
+Proof. exact boring_push_iff. Qed.
+
+(** never for compound assignments, poetic literals, poetic strings *)
+Theorem C18_boring_never :
+  (forall d f rest o, boring_stmt (SAssign d f rest (Some o)) = Ok []) /\
+  (forall d el, boring_stmt (SPoeticNum d (PNLit el)) = Ok []) /\
+  (forall d s, boring_stmt (SPoeticStr d s) = Ok []) /\
+  (forall a, boring_stmt (SPush a None) = Ok []) /\
+  (forall a el, boring_stmt (SPush a (Some (PushLit el))) = Ok []).
+Proof. exact boring_never. Qed.
+
+(** the diagnostic names the target and the value; no (misleading) suggestion when the value has no
+    poetic spelling *)
+Theorem C18_numeric_diag_shape :
+  forall pre sep var v ln ds, numeric_diag pre sep var v ln = Ok ds ->
+  exists sugg, ds = [mkDiag (issue_text var (f64_display v)) sugg ln] /\
+               (has_poetic_spelling v = false -> sugg = []) /\
+               (has_poetic_spelling v = true ->
+                exists t, template_text (f64_display v) true = Ok t /\ sugg = [suggestion_text (pre ++ var ++ sep ++ t)]).
+Proof. exact numeric_diag_shape. Qed.
+
+Theorem C18_string_diag_shape :
+  forall var s ln,
+  string_diag var s ln =
+  [mkDiag (issue_text var (quoted s))
+          (if existsb (fun c => c =? 10) s then [] else [suggestion_text (var ++ lit " says " ++ s)]) ln].
+Proof. exact string_diag_shape. Qed.
+
+(** the poetic words of a suggestion spell exactly the reported value: reading the template back
+    (word lengths modulo 10, periods in place) gives the printed numeral *)
+Theorem C18_template_spells_value :
+  forall chars t, forallb digit_or_dot chars = true -> template_text chars true = Ok t -> read_template t 0 [] = chars.
+Proof. exact template_spells_value. Qed.
+
+Example C18_example :
+  template_text (lit "10.25") true = Ok (lit "* **********. ** *****") /\
+  read_template (lit "* **********. ** *****") 0 [] = lit "10.25".
+Proof. vm_compute. split; reflexivity. Qed.
+
+Print Assumptions C18_template_spells_value.
